@@ -37,7 +37,7 @@ for _k, _p in PROFILES.items():
         _p.setdefault(_f, False)
     _p["key"] = _k
 
-ENABLED = ("P", "R", "B", "L")
+ENABLED = ("P", "R", "F", "B", "L")
 
 QP, RP, QG, RG, RE, ITEMS, RD, RI = ("reserve_put_queue", "reservations_put", "reserve_get_queue",
                                       "reservations_get", "reserved_events", "items", "ready_items",
@@ -101,6 +101,8 @@ class StoreLib(LibBase):
             return None
         if name == "lifo":
             return z3.Not(self.is_fifo(cls, old))
+        if name == "two-waiting":
+            return old.f[QG].len >= 2
         raise KeyError("unknown chi %r" % name)
 
     def shards(self, cls, fn):
@@ -263,7 +265,10 @@ class StoreLib(LibBase):
                                 ("C14",)))
         # I-nlw
         out.append(("I-nlw-put", z3.Implies(Qp.len > 0, z3.Not(self.grantable_put(cls, st))), ("C04",)))
-        out.append(("I-nlw-get", z3.Implies(Qg.len > 0, z3.Not(self.grantable_get(cls, st))), ("C04",)))
+        if p["filt"]:
+            out.append(("I-nlw-get", self.nlw_get_filter(st), ("C04",)))
+        else:
+            out.append(("I-nlw-get", z3.Implies(Qg.len > 0, z3.Not(self.grantable_get(cls, st))), ("C04",)))
         # I-ord
         out.append(("I-ord.Qp", self.sorted_clause(cls, st, Qp, "put"), ("C05",)))
         out.append(("I-ord.Qg", self.sorted_clause(cls, st, Qg, "get"), ("C05",)))
@@ -311,6 +316,8 @@ class StoreLib(LibBase):
         p = PROFILES[cls]
         if p["mover"] and not p["belt"] and con.name == "move_to_ready_items":
             return ("item-delay", args["item"].items[1].t, ("C11",))
+        if p["filt"] and con.name == "_add_trigger_event":
+            return ("trigger-delay", st.f["trigger_delay"].t, ("C04",))
         if p["fleet"] and con.name == "move_to_ready_items":
             return ("transit-delay", st.f["transit_delay"].t, ("C14",))
         return None
@@ -335,6 +342,21 @@ class StoreLib(LibBase):
     def grantable_get(self, cls, st):
         p = PROFILES[cls]
         return st.f[RG].len < avail(st, p)
+
+    DEFAULT_FILTER = -2
+
+    def filt(self, st, e, x):
+        """event e's filter applied to item x.  The store's default filter (age >= trigger_delay) is interpreted;
+        a user filter is an uninterpreted, pure, time-independent predicate (assumption A-filter)."""
+        f = z3.Select(st.heap_arr("filter"), e)
+        uf = _ufilt()
+        return z3.If(f == self.DEFAULT_FILTER,
+                     st.now >= z3.Select(st.heap_arr("put_time"), x) + st.f["trigger_delay"].t, uf(f, x))
+
+    def nlw_get_filter(self, st):
+        Qg, Rg, Re, It = st.f[QG], st.f[RG], st.f[RE], st.f[ITEMS]
+        return Forall(1, lambda j: z3.Implies(z3.And(Qg.len > 0, Rg.len < It.len, Re.len <= j, j < It.len),
+                                              z3.Not(self.filt(st, Qg.at(0).t, It.at(j).t))), [It.len], "I-nlw-get")
 
     STRUCT_SKIP = ("I-nlw-put", "I-nlw-get", "I-avg.level", "I-avg.time")
 
@@ -535,7 +557,7 @@ class StoreLib(LibBase):
         def put_requires(c):
             return owns(c.old, RP, c.args["put_event"].t)
 
-        if not p["ready"] and not p["filt"]:
+        if not p["ready"]:
             C["_do_put"] = FnContract(
                 "_do_put", [("put_event", EV, None), ("item", item_kind, None)],
                 post=lambda c: put_core(c, False), excs=put_excs(), normal_requires=put_requires,
@@ -906,6 +928,215 @@ class StoreLib(LibBase):
                 modifies=(ITEMS, QG, RG, RE), heap_modifies=("triggered",), result_kind=("bool",),
                 props=("C02", "C04", "C05", "C06", "C07"))
 
+        if p["filt"]:
+            def move(lst, m, n):
+                """the element at m moved to position n (n <= m); everything else keeps its order"""
+                return V.list_insert(V.list_pop(lst, m), n, lst.at(m))
+
+            def match_first(st, e, It, n, m):
+                """m is the first index >= n whose item satisfies e's filter"""
+                return [z3.And(n <= m, m < It.len, lib.filt(st, e, It.at(m).t)),
+                        Forall(1, lambda j: z3.Implies(z3.And(n <= j, j < m), z3.Not(lib.filt(st, e, It.at(j).t))),
+                               [It.len], "first-match")]
+
+            def no_match(st, e, It, n, extra_guard=None):
+                def fn(j):
+                    g = z3.And(n <= j, j < It.len)
+                    if extra_guard is not None:
+                        g = z3.And(g, extra_guard)
+                    return z3.Implies(g, z3.Not(lib.filt(st, e, It.at(j).t)))
+                return Forall(1, fn, [It.len], "no-match")
+
+            # ---- _do_reserve_get (filter)
+            def post_do_rg_f(c):
+                o, n_ = c.old, c.new
+                e = c.args["event"]
+                It, n = o.f[ITEMS], o.f[RE].len
+                gf = c.ghost("gf", lambda: trig(n_, e.t), sort="bool")
+                m = c.ghost("m", lambda: (n + n_.loc["__i0"].t - 1) if isinstance(n_.loc.get("__i0"), Num) else n)
+                room = o.f[RG].len < It.len
+                mf = match_first(o, e.t, It, n, m)
+                return [
+                    Clause("granted-only-with-room", lambda c: z3.Implies(gf, room), ("C02",)),
+                    # statement C06: a filtered retrieval is only ever bound to an item satisfying its filter
+                    # (the first such un-reserved item, so matching items are still served first-in-first-out)
+                    Clause("granted-only-with-match", lambda c: z3.Implies(gf, mf[0]), ("C06",)),
+                    Clause("granted-binds-first-match", lambda c: Forall(
+                        1, lambda j: z3.Implies(gf, mf[1].inst(j)), [It.len], "first"), ("C06",)),
+                    Clause("refused-only-without-match",
+                           lambda c: no_match(o, e.t, It, n, z3.And(z3.Not(gf), room)), ("C04",)),
+                    Def(RG, V.ite(gf, V.list_append(o.f[RG], e), o.f[RG]), ("C02", "C04")),
+                    Def(RE, V.ite(gf, V.list_append(o.f[RE], e), o.f[RE]), ("C02", "C04")),
+                    Def(ITEMS, V.ite(gf, move(It, m, n), It), ("C06", "C02")),
+                    DefHeap("triggered", z3.If(gf, z3.Store(o.heap_arr("triggered"), e.t, True),
+                                               o.heap_arr("triggered")), ("C02", "C04")),
+                    # head-of-line service (C05): a refused head must stop the scan of the queue
+                    Clause("result-falsy", lambda c: z3.Not(V.truth(c.res)), ("C05",)),
+                ]
+            C["_do_reserve_get"] = FnContract(
+                "_do_reserve_get", [("event", EV, None)],
+                pre=lambda st, args: [("event-untriggered", z3.Not(trig(st, args["event"].t)))],
+                post=post_do_rg_f, uses_inv=True, keeps_inv=False, inv_skip=skip, modifies=(RG, RE, ITEMS),
+                heap_modifies=("triggered",), result_kind=("opt", ("bool",)), props=("C02", "C04", "C06"))
+
+            # ---- _trigger_reserve_get (filter): serves the head of the queue only
+            def trig_get_items(c, o, q1, g1, e1, it1, n1):
+                """effect of one _trigger_reserve_get() on the state (q1,g1,e1,it1); n1 = number of reservations"""
+                n_ = c.new
+                k = c.ghost("k", lambda: n_.f[RG].len - g1.len)
+                def wit_m():
+                    cg = n_.ghost.get("call_ghosts", {})
+                    for nm in ("_do_reserve_get", "_trigger_reserve_get"):
+                        if nm in cg and "m" in cg[nm]:
+                            return cg[nm]["m"]
+                    return z3.IntVal(0)
+                m = c.ghost("m", wit_m)
+                head = q1.at(0).t
+                room = g1.len < it1.len
+                pref = V.list_slice_to(q1, k)
+                mf = match_first(c.eval_state, head, it1, n1, m)
+                return [
+                    Clause("k-range", lambda c: z3.And(0 <= k, k <= 1, k <= q1.len), ("C04", "C05")),
+                    Clause("grant-needs-room-and-match", lambda c: z3.Implies(k == 1, z3.And(room, mf[0])), ("C06", "C02")),
+                    Clause("grant-binds-first-match", lambda c: Forall(
+                        1, lambda j: z3.Implies(k == 1, mf[1].inst(j)), [it1.len], "first"), ("C06",)),
+                    Clause("serves-head-if-possible",
+                           lambda c: no_match(c.eval_state, head, it1, n1, z3.And(k == 0, q1.len > 0, room)), ("C04",)),
+                    Def(QG, V.list_slice_from(q1, k), ("C05",)),
+                    Def(RG, V.list_concat(g1, pref), ("C05",)),
+                    Def(RE, V.list_concat(e1, pref), ("C02",)),
+                    Def(ITEMS, V.ite(k == 1, move(it1, m, n1), it1), ("C06", "C02")),
+                    Clause("no-grant-no-event-touched",
+                           lambda c: z3.Implies(k == 0, n_.heap_arr("triggered") == c.eval_state.heap_arr("triggered")),
+                           ("C04", "C07")),
+                ]
+
+            def post_trig_get_f(c):
+                o = c.old
+                c.eval_state = o
+                return trig_get_items(c, o, o.f[QG], o.f[RG], o.f[RE], o.f[ITEMS], o.f[RE].len)
+            C["_trigger_reserve_get"] = FnContract(
+                "_trigger_reserve_get", [("event", ("opt", EV), None)], post=post_trig_get_f,
+                uses_inv=True, keeps_inv=True, inv_skip=skip, modifies=(QG, RG, RE, ITEMS),
+                heap_modifies=("triggered",), props=("C04", "C05", "C06"))
+
+            # ---- _do_put / _trigger_put / put (filter store): stamps put_time, starts the re-trigger timer
+            def put_core_f(c, with_trigger):
+                o, n_ = c.old, c.new
+                e = c.args["put_event"].t
+                x = c.args["item"]
+                it1 = V.list_append(o.f[ITEMS], x)
+                items = [
+                    Def(RP, V.list_pop(o.f[RP], lib.pos(o, RP, e)), ("C01", "C07")),
+                    DefHeap("put_time", z3.Store(o.heap_arr("put_time"), x.t, o.now), ("C06",)),
+                    Clause("result-truthy", lambda c: V.truth(c.res), ("C01",)),
+                    Structural("starts-exactly-one-retrigger-timer",
+                               lambda c: len([y for y in c.new.ghost.get("spawned", []) if y[0] == "_add_trigger_event"])
+                               - len([y for y in c.old.ghost.get("spawned", []) if y[0] == "_add_trigger_event"]) == 1,
+                               ("C04",),
+                               caller_effect=lambda c: c.new.ghost.setdefault("spawned", []).append(("_add_trigger_event", {}))),
+                ]
+                if not with_trigger:
+                    items.append(Def(ITEMS, it1, ("C01", "C02")))
+                else:
+                    # intermediate state: after _do_put, before the trigger
+                    mid = o.fork()
+                    mid.f[ITEMS] = it1
+                    mid.heap_arr("put_time")
+                    mid.h["put_time"] = z3.Store(o.heap_arr("put_time"), x.t, o.now)
+                    c.eval_state = mid
+                    items += trig_get_items(c, o, o.f[QG], o.f[RG], o.f[RE], it1, o.f[RE].len)
+                return items
+            C["_do_put"] = FnContract(
+                "_do_put", [("put_event", EV, None), ("item", IT, None)], post=lambda c: put_core_f(c, False),
+                excs=put_excs(), normal_requires=put_requires, uses_inv=True, keeps_inv=False,
+                modifies=(RP, ITEMS), heap_modifies=("put_time",), result_kind=("bool",), props=("C01", "C07"))
+            C["_trigger_put"] = FnContract(
+                "_trigger_put", [("put_event", EV, None), ("item", IT, None)],
+                pre=lambda st, args: [("reservations-nonempty", st.f[RP].len > 0)],
+                post=lambda c: put_core_f(c, False), excs=put_excs(), normal_requires=put_requires,
+                uses_inv=True, keeps_inv=False, modifies=(RP, ITEMS), heap_modifies=("put_time",),
+                result_kind=("bool",), props=("C01", "C07"))
+            C["put"] = FnContract(
+                "put", [("put_event", EV, None), ("item", IT, None)], post=lambda c: put_core_f(c, True),
+                excs=put_excs(), normal_requires=put_requires, modifies=(RP, ITEMS, QG, RG, RE),
+                heap_modifies=("triggered", "put_time"), result_kind=("bool",), props=("C01", "C02", "C07"))
+
+            # ---- reserve_get(priority, filter)
+            def post_rg_f(c):
+                o, n_ = c.old, c.new
+                e = VObj(o.next_id, "event")
+                pr = c.args["priority"]
+                pos = c.ghost("pos", lambda: n_.ghost["sort_pos"][-1])
+                oq = o.f[QG]
+                q1 = V.list_insert(oq, pos, e)
+                mid = o.fork()
+                mid.heap_arr("filter")
+                fv = c.args["filter"]
+                fid = z3.If(fv.isnone, z3.IntVal(lib.DEFAULT_FILTER), fv.val.t)
+                mid.h["filter"] = z3.Store(o.heap_arr("filter"), e.t, fid)
+                mid.heap_arr("triggered")
+                mid.h["triggered"] = z3.Store(o.heap_arr("triggered"), e.t, False)
+                c.eval_state = mid
+                items = [
+                    DefRes(e, ("C05",)),
+                    Clause("fresh-id", lambda c: n_.next_id == o.next_id + 1, ("C02",)),
+                    Clause("owner", lambda c: owner(n_, e.t) == o.active, ("C07",)),
+                    Clause("priority-recorded", lambda c: z3.Select(n_.heap_arr("priority_to_get"), e.t) == _real(pr), ("C05",)),
+                    Clause("filter-recorded", lambda c: z3.Select(n_.heap_arr("filter"), e.t) == fid, ("C06",)),
+                    Clause("stable-position", lambda c: z3.And(0 <= pos, pos <= oq.len), ("C05",)),
+                    Clause("stable-position.before", lambda c: Forall(1, lambda i: z3.Implies(
+                        z3.And(0 <= i, i < pos), prio_get(o, oq.at(i).t) <= _real(pr)), [oq.len], "before"), ("C05",)),
+                    Clause("stable-position.after", lambda c: Forall(1, lambda i: z3.Implies(
+                        z3.And(pos <= i, i < oq.len), prio_get(o, oq.at(i).t) > _real(pr)), [oq.len], "after"), ("C05",)),
+                ]
+                items += trig_get_items(c, o, q1, o.f[RG], o.f[RE], o.f[ITEMS], o.f[RE].len)
+                return items
+            C["reserve_get"] = FnContract(
+                "reserve_get", [("priority", ("num", "real"), Num(0)), ("filter", ("opt", ("obj", "filter")), NONE)],
+                post=post_rg_f, modifies=(QG, RG, RE, ITEMS),
+                heap_modifies=("triggered", "requesting_process", "resourcename", "priority_to_get", "filter"),
+                result_kind=EV, props=("C04", "C05", "C06"), allocates=True)
+
+            # ---- reserve_get_cancel (filter store: positional binding, then one re-trigger)
+            def post_rgc_f(c):
+                o, n_ = c.old, c.new
+                e = c.args["get_event_to_cancel"].t
+                inq = lib.is_in(o, QG, e)
+                cidx = lib.pos(o, RG, e)
+                nres = o.f[RE].len
+                It = o.f[ITEMS]
+                released = It.at(cidx)
+                moved = V.list_concat(V.list_append(V.list_pop(V.list_slice_to(It, nres), cidx), released),
+                                      V.list_slice_from(It, nres))
+                q1 = V.ite(inq, V.list_pop(o.f[QG], lib.pos(o, QG, e)), o.f[QG])
+                g1 = V.ite(inq, o.f[RG], V.list_pop(o.f[RG], cidx))
+                e1 = V.ite(inq, o.f[RE], V.list_pop(o.f[RE], cidx))
+                it1 = V.ite(inq, It, moved)
+                c.eval_state = o
+                return trig_get_items(c, o, q1, g1, e1, it1, e1.len) + [
+                    Clause("result-truthy", lambda c: V.truth(c.res), ("C07",))]
+            C["reserve_get_cancel"] = FnContract(
+                "reserve_get_cancel", [("get_event_to_cancel", EV, None)], post=post_rgc_f,
+                excs=[ExcCase("RuntimeError",
+                              lambda c: z3.Not(z3.Or(lib.is_in(c.old, QG, c.args["get_event_to_cancel"].t),
+                                                     lib.is_in(c.old, RG, c.args["get_event_to_cancel"].t))),
+                              "unknown-token", unchanged=True, props=("C07",))],
+                normal_requires=lambda c: z3.Or(lib.is_in(c.old, QG, c.args["get_event_to_cancel"].t),
+                                                lib.is_in(c.old, RG, c.args["get_event_to_cancel"].t)),
+                modifies=(ITEMS, QG, RG, RE), heap_modifies=("triggered",), result_kind=("bool",),
+                props=("C02", "C04", "C05", "C06", "C07"))
+
+            # ---- _add_trigger_event: the timer that re-runs the get-side trigger when an item has aged
+            C["_add_trigger_event"] = FnContract(
+                "_add_trigger_event", [], is_generator=True, uses_inv=True, keeps_inv=True,
+                entry_assume=lambda st, args: [("trigger-delay-nonneg", st.f["trigger_delay"].t >= 0)],
+                post=lambda c: [
+                    Clause("delay-field", lambda c: c.new.f["delay"].t == c.new.f["trigger_delay"].t, ("C04",)),
+                    Structural("ends-by-firing-an-event-that-carries-the-get-trigger",
+                               lambda c: _fired_callback(c.new, "self._trigger_reserve_get"), ("C04",))],
+                modifies=("delay",), heap_modifies=("triggered",), props=("C04",))
+
         # ---- __init__
         init_params = [("env", ("env",), None), ("capacity", ("num", "intinf"), Num(z3.IntVal(0), inf=z3.BoolVal(True)))]
         if p["lifo"]:
@@ -967,6 +1198,10 @@ class StoreLib(LibBase):
     def loop_invs(self, cls, fname):
         p = PROFILES[cls]
         lib = self
+        if p["filt"] and fname == "_trigger_reserve_get":
+            return {0: HeadOnlyLoop(lib, cls)}
+        if p["filt"] and fname == "_do_reserve_get":
+            return {0: FilterScanLoop(lib, cls)}
         if fname in ("_trigger_reserve_put", "_trigger_reserve_get"):
             side = "put" if fname.endswith("put") else "get"
             return {0: TriggerLoop(lib, cls, side)}
@@ -1066,6 +1301,7 @@ class StoreLib(LibBase):
             s = st.fork()
             e = s.fresh_obj("event")
             s.heap_set(e, "triggered", VBool(False))
+            s.ghost.setdefault("local_events", []).append(e.t)
             return [(e, s)]
         if name == "timeout":
             d = V.as_num(args[0])
@@ -1091,17 +1327,42 @@ class StoreLib(LibBase):
             outs, ok = ex.raise_if(st, trig(st, base.t), "RuntimeError", node.lineno, "succeed() on triggered event")
             if ok is not None:
                 ok.heap_set(base, "triggered", VBool(True))
+                ok.ghost.setdefault("fired", []).append(base.t)
                 outs.append((base, ok))
             return outs
+        if base.kind == "event" and name == "filter":
+            return [(VBool(self.filt(st, base.t, args[0].t)), st)]
         raise Unsupported("%s.%s() at line %d" % (base.kind, name, node.lineno))
 
     def obj_attr(self, ex, base, attr, st, lineno):
+        if base.kind == "event" and attr == "callbacks":
+            v = VOpaque("callbacks")
+            v.event = base.t
+            return [(v, st)]
         return [(st.heap_get(base, attr), st)]
+
+    def call_opaque(self, ex, base, name, args, kw, st, node):
+        if base.tag == "callbacks" and name == "append" and isinstance(args[0], V.VFunc):
+            s = st.fork()
+            s.ghost.setdefault("callbacks", []).append((base.event, args[0].name))
+            return [(NONE, s)]
+        return None
 
     def set_obj_attr(self, ex, base, attr, v, st, lineno):
         if attr == "resourcename":
             st.heap_arr("resourcename")
             return [Outcome("next", st)]   # back-reference to the store; identity not modelled
+        if attr == "filter":
+            if isinstance(v, V.VOpt):
+                # the path condition has already excluded None (the code tests `filter is None` first)
+                st.heap_set(base, "filter", v.val)
+                return [Outcome("next", st)]
+            if isinstance(v, V.VFunc):
+                # the only lambda assigned is the store's default age filter (checked syntactically below)
+                if v.node is None or "put_time" not in __import__("ast").dump(v.node):
+                    raise Unsupported("unknown lambda assigned to event.filter (line %d)" % lineno)
+                st.heap_set(base, "filter", VObj(z3.IntVal(self.DEFAULT_FILTER), "filter"))
+                return [Outcome("next", st)]
         return None
 
     def list_sort(self, ex, base, lst, node, st, write):
@@ -1219,8 +1480,14 @@ class MoverYields:
             s.assume(cl)
         for nm, cl, props in lib.invariant(cls, s, side="assume"):
             s.assume(cl)
-        for nm, cl in self.con.entry_assume(s, self.args):
-            s.assume(cl)
+        if self.con.entry_assume is not None:
+            for nm, cl in self.con.entry_assume(s, self.args):
+                s.assume(cl)
+        # rely: an event created by this process and never handed out is untouched and unknown to the store
+        for ev in st.ghost.get("local_events", []):
+            s.assume(z3.Not(trig(s, ev)))
+            s.assume(s.ghost["tag"](ev) == 0)
+            s.assume(ev < st.next_id)
         if anyof is not None:
             s.pc.append(z3.Or(s.now == st.now + value.delay.t, trig(s, ev)))
         if "batch_len" in s.ghost:
@@ -1229,6 +1496,49 @@ class MoverYields:
         s.ghost["resume_old"] = s.fork()
         s.ghost["entry_now"] = st.now
         return [(NONE, s)]
+
+
+class HeadOnlyLoop:
+    """while-loop of the filter store's _trigger_reserve_get: _do_reserve_get returns a falsy value, so the loop
+    body always ends in `break`; at the head nothing has happened yet."""
+    variant = None
+    props = ("C04", "C05")
+
+    def __init__(self, lib, cls):
+        self.lib, self.cls = lib, cls
+
+    def havoc(self, ex, st, node, ordinal):
+        for nm in ("proceed", "reserve_get_event"):
+            st.loc[nm] = None
+
+    def inv(self, ex, entry, st, mode):
+        return [("first-iteration-only", st.loc["idx"].t == 0)]
+
+
+class FilterScanLoop:
+    """for-loop of the filter store's _do_reserve_get: the items scanned so far do not satisfy the filter and
+    nothing has been modified (the body ends in `break` as soon as it modifies the store)."""
+    variant = None
+    props = ("C04", "C06")
+
+    def __init__(self, lib, cls):
+        self.lib, self.cls = lib, cls
+
+    def havoc(self, ex, st, node, ordinal):
+        tag = "lh%s" % _ctr()
+        st.loc["__i%d" % ordinal] = Num(z3.Int(tag + ".i"))
+        logic.REG.index_consts.add(tag + ".i")
+        for n in ast_assigned(node):
+            st.loc[n] = None
+
+    def inv(self, ex, entry, st, mode):
+        i = st.loc["__i0"].t
+        e = ex.ctx.args["event"].t
+        It, n = st.f[ITEMS], st.f[RE].len
+        lib = self.lib
+        return [("index-range", z3.And(0 <= i, i <= It.len - n)),
+                ("scanned-items-do-not-match", Forall(1, lambda j: z3.Implies(
+                    z3.And(n <= j, j < n + i), z3.Not(lib.filt(st, e, It.at(j).t))), [It.len], "scanned"))]
 
 
 class InvLoop:
@@ -1396,6 +1706,16 @@ class TriggerLoop:
         return out
 
 
+def _fired_callback(st, fname):
+    """the path ended with succeed() on a locally created event whose callbacks contain `fname`"""
+    cbs = st.ghost.get("callbacks", [])
+    fired = st.ghost.get("fired", [])
+    for ev, fn in cbs:
+        if fn == fname and any(ev.eq(f) for f in fired):
+            return True
+    return False
+
+
 def _spawn_ok(c, gname, pname, value):
     sp = [x for x in c.new.ghost.get("spawned", []) if x[0] == gname]
     sp0 = [x for x in c.old.ghost.get("spawned", []) if x[0] == gname]
@@ -1403,6 +1723,15 @@ def _spawn_ok(c, gname, pname, value):
     if len(new) != 1:
         return False
     return V.eq(new[0][1][pname], value)
+
+
+_UF = {}
+
+
+def _ufilt():
+    if "f" not in _UF:
+        _UF["f"] = z3.Function("user_filter", z3.IntSort(), z3.IntSort(), z3.BoolSort())
+    return _UF["f"]
 
 
 _c = [0]
